@@ -4,7 +4,7 @@ NOTES = ("Static analysis only. Every check decides structural necessary conditi
          "Exit 2 / ANALYSIS-BROKEN means the check cannot decide: a function or data member the rules are anchored on was renamed "
          "or removed, a rule matched fewer instances than its floor, a unit no longer parses, or (thorough tier) the rules no longer "
          "separate their mutant / behaviour-preserving corpus. Every property additionally carries the generic rules G1 (user-provided "
-         "move/swap members transfer every data member) and G2 (no value-returning function runs off its end) over its anchor files. "
+         "move/swap members transfer every data member), G2 (no value-returning function runs off its end) and G3 (a move member ending in swap(source) does not move a member out of the source first) over its anchor files. "
          "Thorough tier = quick + assert-enabled configuration + the project's own test instantiations + corpus self-test.")
 PENDING = "rules for this property are not built yet in this revision of /verif (work in progress; see DESIGN.md section 8)"
 
@@ -17,7 +17,7 @@ CHECKS = {
           "plus who-may-touch slot payload/reset/tickets, the version constants, the compensating batch waiting on every slot of its range, and a "
           "batch split at the ring end continuing only after its first piece was handled completely. These are necessary conditions for 'consumer sees "
           "every producer write' and 'exclusive access'; weakened orders, dropped fences, hoisted stores and ignored CAS results are "
-          "invisible to the x86 test-suite but are local shape changes seen on every path. FIFO/multiset/try_-failure clauses are not decided.",
+          "invisible to the x86 test-suite but are local shape changes seen on every path. FIFO/multiset/try_-failure clauses are not decided. Also: a change of the ring geometry (reserve_and_clear writing _slot_bits) re-bases both ticket counters on every path (R11).",
   "note": "Trusted: clang 14 CFG of the host preprocessor branch; C++ memory-model reasoning that acquire-observation + release-advance on "
           "one word is the publication protocol; client callbacks opaque.",
   "technique": "static analysis: path/dominance rules over inlined CFG facts of template instantiations (custom libTooling extractor)"},
@@ -72,7 +72,7 @@ CHECKS = {
           "by all ids ever allocated (IdAllocator::end / ThreadId::end) and keeps the minimum starting from UINT64_MAX; leaving "
           "release-stores UINT64_MAX only on the outermost exit with a balanced nesting counter; Accessor is move-only, swaps both "
           "fields and unregisters at most once. A weakened fence or order never shows in sequentially consistent test interleavings on "
-          "x86. The sufficiency of these orders (the Dekker argument) and the non-x86 branch of tick() are not decided.",
+          "x86. The sufficiency of these orders (the Dekker argument) and the non-x86 branch of tick() are not decided. Also: the scan bound is the instance's own accessor count whenever non-zero; the process-wide thread count is used only on the ==0 edge (R3e).",
   "note": "Trusted: C++ memory model reasoning about seq_cst fences; host preprocessor branch (#if __x86_64__) only.",
   "technique": "static analysis: memory-order, fence post-dominance, edge-guard and provenance rules over CFG facts"},
  "C14": {
@@ -84,7 +84,7 @@ CHECKS = {
           "id.version -> different value), emplace stamps the slot with the allocated version before the id leaves; finish_released only "
           "from holders of a successful take, Accessor moves keep one finisher; a thread id is allocated in the constructor and the same "
           "value returned in the destructor. An ABA or stale-version match needs a precise three-thread interleaving and is silent. "
-          "Uniqueness over all interleavings is not decided.",
+          "Uniqueness over all interleavings is not decided. Also: IdAllocator::for_each closes a reported run, flushes the trailing run, finds run boundaries with ACTIVE_FLAG and advances pointer and id together (R6).",
   "note": "Trusted: clang 14 CFG; 64-bit lock-free atomics on VersionedValue (asserted by the platform, not by this check).",
   "technique": "static analysis: provenance (desired value derives from observed value + constant), edge-guard, dominance and memory-order rules over CFG facts"},
  "C13": {
@@ -106,7 +106,7 @@ CHECKS = {
           "a growth table is CAS-published or deleted, exactly one, with release/acquire; traversal loads of next acquire; and lookup and "
           "insertion advance their probe position identically (alpha-renamed sibling agreement - this is what catches an independently "
           "seeded change that made find walk the groups in a different order). Readers between BUSY and the publishing store, or two "
-          "inserters at one empty slot, are never staged by the tests. Linearizability and SIMD matching are not decided.",
+          "inserters at one empty slot, are never staged by the tests. Linearizability and SIMD matching are not decided. Also: the slot claim is made on the control byte indexed exactly like the element constructed, never on its mirror (R1f).",
   "note": "Trusted: clang 14 CFG; Group::match*/SIMD helpers opaque; std::hash.",
   "technique": "static analysis: edge-guard, fence-between, exactly-once, resource-flow and sibling-agreement rules over CFG facts of template instantiations"},
  "C18": {
@@ -128,7 +128,7 @@ CHECKS = {
           "the chain; user-provided move members transfer every member and data-carrying base (violated by the original tree: finding F3, "
           "replayed and fixed); constant indices agree with the capacity of the in-page arrays. A block returned with the wrong size, twice "
           "or never is visible only with an instrumented allocator over long histories. Block disjointness / alignment arithmetic / overlap "
-          "with in-page bookkeeping are numeric and explicitly not decided.",
+          "with in-page bookkeeping are numeric and explicitly not decided. Also: when a move member exchanges the block bookkeeping, the allocators release() hands blocks back to are exchanged with it (R4b).",
   "note": "Trusted: clang 14 CFG; PageAllocator and std::pmr upstream are opaque; SanitizerHelper calls are value-transparent helpers.",
   "technique": "static analysis: resource-flow (acquire -> register on all paths), expression agreement with reaching definitions, ordering/dominance, "
                "special-member completeness and constant/capacity agreement over CFG facts"},
@@ -152,7 +152,7 @@ CHECKS = {
           "exactly when invoke refused, submit(CoroutineTask) binds the executor first and destroys the frame exactly on refusal; the "
           "sleeping global pop is woken by every global push and the non-atomic local push is reachable only behind is_running_in() "
           "through the thread-local queue. A dropped task shows only as a future that never becomes ready. That an accepted task runs "
-          "under every interleaving with steal/balance is not decided.",
+          "under every interleaving with steal/balance is not decided. Also: a task stolen inside the per-block steal sweep is dispatched before any further pop into the same variable, across callback invocations and after the sweep (R3e/R3f).",
   "note": "Trusted: clang 14 CFG; std::thread; the bounded queue (C01/C02). Observation O4 (coroutine execute ignores a refused submit) is outside the quantifier and not armed.",
   "technique": "static analysis: scope-dominance, ordering, switch exhaustiveness over the enum's enumerators, edge-guard and who-may-call pairing rules over CFG facts"},
  "C16": {
@@ -173,7 +173,7 @@ CHECKS = {
           "count and an acquire fence separates the relaxed status reads from handing out items; a sleeper waits only after setting or "
           "seeing the waiter bit, installs observed+2^16; the waker's threshold is 2^16 and wake_all is unavoidable when a sleeper is "
           "seen; clear resets every slot word and the index. The consumer-registers-while-publisher-wakes window is never staged by the "
-          "tests and a missed wake-up is a hang. Order across blocks and consumer termination are not decided.",
+          "tests and a missed wake-up is a hang. Order across blocks and consumer termination are not decided. Also: CLOSED ends the per-block slot walk for all following blocks, and the range handed out is (cursor before the advance, count) over the window [cursor, cursor+num) (R3f/R3g).",
   "note": "Trusted: clang 14 CFG; kernel futex; ConcurrentVector snapshot/for_each block iteration (C04).",
   "technique": "static analysis: fence-between / ordering / edge-guard / range-agreement rules over inlined CFG facts"},
  "C19": {
@@ -196,7 +196,7 @@ CHECKS = {
           "the writer thread can exit after a pop only through the write-out of that pop's entries, the size-0 marker is what the consumer "
           "tests, close pushes it before join, the destructor closes. Page conservation across the asynchronous hand-off is a property of "
           "all interleavings and of entry lengths no test enumerates. The inline/page-table boundary arithmetic, per-thread order in the "
-          "file and partial writev are not decided; observation O1 (close()'s sleeping push vs. the non-waking consumer) is printed as a NOTE.",
+          "file and partial writev are not decided; observation O1 (close()'s sleeping push vs. the non-waking consumer) is printed as a NOTE. Also: begin() resets every field the streaming methods write, end() syncs, and a file's destination index is the position its destination is appended at (R2i/R2j/R4d).",
   "note": "Trusted: clang 14 CFG; writev/FileObject opaque; PageAllocator opaque; the appender queue (C01/C02).",
   "technique": "static analysis: resource-flow, must-pass-through, exactly-once linking and ordering rules over CFG facts"},
  "C11": {
@@ -212,7 +212,7 @@ CHECKS = {
           "reserved from the input is bounded by the bytes present; container loops end on GetDirectBufferPointer (BytesUntilLimit is -1 "
           "without a limit: finding F6, replayed, fixed upstream-style and now guarded by R5/R7); smart pointers create the pointee only "
           "on non-empty input. These are universally quantified over types and presentations the tests sample with a few literals. "
-          "Round-trip value equality, byte-exact protobuf interoperability and the behaviour on each malformed input are not decided.",
+          "Round-trip value equality, byte-exact protobuf interoperability and the behaviour on each malformed input are not decided. Also: SERIALIZED_SIZE_CACHED is monotone along nesting - a writer that calls a cached-size writer declares the flag (R9d).",
   "note": "Trusted: clang 14 CFG and template instantiation; protobuf's CodedInputStream/CodedOutputStream contracts (ReadVarint32 consumes a "
           "whole varint; BytesUntilLimit() == -1 without limit); the driver's instantiation set stands for 'all supported types' "
           "(protobuf MessageLite delegation is a one-line forward and not instantiated).",
